@@ -576,7 +576,12 @@ struct Ref {
                 if (my.has_value() && &my->get() == before) { aliasing = true; }
                 break;
             }
-            case R_WRITE_REFERENT: tgt = v; break;
+            case R_WRITE_REFERENT: {
+                tgt = v; // the optionals bound to it must observe the new value (compare() below reads through them)
+                if ((mx.has_value() && &mx->get() == &tgt) || (my.has_value() && &my->get() == &tgt)) { aliasing = true; }
+                if (mx.has_value() && &mx->get() == &tgt && *x != v) { err = "*x does not show a write to the bound object"; }
+                break;
+            }
             case R_Q_DEREF: {
                 int& r = *x;
                 if (&r != &mx->get() || r != mx->get()) { err = "*x does not refer to the bound object"; }
@@ -640,7 +645,7 @@ struct Ref {
             vf::label("optional_ref.hist.transition_then_query", nt);
             vf::label("optional_ref.hist.compared_both_engaged", cmp_both);
             vf::label("optional_ref.hist.compared_engaged_vs_disengaged", cmp_one);
-            vf::label("optional_ref.hist.write_seen_through_alias", aliasing);
+            vf::label("optional_ref.hist.referent_written_while_bound_elsewhere", aliasing);
         }
         if (stats > 0 && nt) {
             if (stats > 1) {
